@@ -121,6 +121,36 @@ fn decode_cred(claims: &[u8]) -> Result<(Credential, Option<Object>), String> {
   JwtCredentialValidator::with_signature_verifier(AcceptAll).verify_signature::<CoreDocument, Object>(&Jwt::new(jws), &[doc_with_key(ISSUER)], &JwsVerificationOptions::default()).map(|d| (d.credential, d.custom_claims)).map_err(|e| format!("{:?}", e))
 }
 
+/// kinds 6 / 7: the same conversions through the storage-backed issuing calls of a DID document and the real Ed25519 verifier
+pub fn sig_options(mask: i64) -> identity_storage::JwsSignatureOptions {
+  let mut o = crate::jws_storage::options(mask & 0x1ff);
+  if mask & 512 != 0 { o = o.b64(true); }
+  o
+}
+pub fn jwt_opts_ok(mask: i64) -> bool { mask & 128 == 0 && (mask & 2 == 0 || mask & 512 != 0) }
+fn signer_doc(did: &str) -> (CoreDocument, crate::jws_storage::MemStorage, String) {
+  use identity_storage::{JwkDocumentExt, JwkMemStore};
+  crate::jws_storage::rt().block_on(async {
+    let mut doc = CoreDocument::builder(Object::new()).id(did.parse().unwrap()).build().unwrap();
+    let storage = identity_storage::Storage::new(JwkMemStore::new(), identity_storage::KeyIdMemstore::new());
+    let f = doc.generate_method(&storage, JwkMemStore::ED25519_KEY_TYPE, identity_verification::jws::JwsAlgorithm::EdDSA, Some("#key"), identity_verification::MethodScope::VerificationMethod).await.unwrap();
+    (doc, storage, f)
+  })
+}
+fn verifier_options(mask: i64, did: &str) -> JwsVerificationOptions {
+  let mut v = JwsVerificationOptions::new();
+  if mask & 32 != 0 { v = v.nonce("nonce-1"); }
+  if mask & 64 != 0 { v = v.method_id(identity_did::DIDUrl::parse(format!("{did}#key")).unwrap()); }
+  v
+}
+fn payload_text(jwt: &str) -> Option<String> { let seg = jwt.split('.').nth(1)?; String::from_utf8(identity_jose::jwu::decode_b64(seg).ok()?).ok() }
+/// the protected header of the token is the one create_jws assembles: typ "JWT" unless set, kid the method id unless set
+fn header_as_created(jwt: &str, mask: i64, did: &str) -> bool {
+  let h: Option<Value> = jwt.split('.').next().and_then(|s| identity_jose::jwu::decode_b64(s).ok()).and_then(|b| serde_json::from_slice(&b).ok());
+  match h { Some(h) => h.get("alg") == Some(&json!("EdDSA")) && h.get("typ") == Some(&json!(if mask & 4 != 0 { "vp+jwt" } else { "JWT" })) && h.get("kid") == Some(&json!(if mask & 64 != 0 { "custom-kid".to_string() } else { format!("{did}#key") }))
+      && h.get("b64").is_none() && h.get("crit").is_none() && h.get("jwk").is_some() == (mask & 1 != 0) && h.get("nonce").is_some() == (mask & 32 != 0), None => false }
+}
+
 #[derive(Clone, Debug, PartialEq)]
 pub struct P { pub ctx: i64, pub id: Option<i64>, pub types: i64, pub vcs: i64, pub holder: i64, pub refresh: i64, pub tou: i64, pub props: i64, pub proof: Option<i64> }
 pub fn rd_p(v: &mut &[i64]) -> P { P { ctx: take1(v).unwrap(), id: ro(v), types: take1(v).unwrap(), vcs: take1(v).unwrap(), holder: take1(v).unwrap(), refresh: take1(v).unwrap(), tou: take1(v).unwrap(), props: take1(v).unwrap(), proof: ro(v) } }
@@ -155,12 +185,30 @@ pub fn used_issuance(iat: Option<i64>, nbf: Option<i64>) -> Option<i64> { match 
 pub fn exec(case: &[i64]) -> Outcome {
   let kind = case[0]; let mut v = &case[1..];
   match kind {
-    1 => {
+    1 | 6 => {
+      let signed: Option<i64> = if kind == 6 { Some(take1(&mut v).unwrap()) } else { None };
       let c = rd_c(&mut v); let n = take1(&mut v).unwrap(); let cu: Vec<(i64, i64)> = (0..n).map(|_| (take1(&mut v).unwrap(), take1(&mut v).unwrap())).collect();
       let cred: Credential = match Credential::from_json_value(cred_json(&c)) { Ok(x) => x, Err(_) => return Outcome::new(vec![-7]).class("unbuildable").trivial().fail("case credential does not build") };
       let collide = cu.iter().any(|(n, _)| (1..=7).contains(n));
-      let text = match cred.serialize_jwt(custom_obj(&cu, false)) { Ok(t) => t, Err(_) => return Outcome::new(vec![-8]).class("serialize-error").fail("serialize_jwt failed on a single-subject credential") };
       let mut why: Option<String> = None;
+      let mut token: Option<(Jwt, CoreDocument, i64)> = None;
+      let text = match signed {
+        None => match cred.serialize_jwt(custom_obj(&cu, false)) { Ok(t) => t, Err(_) => return Outcome::new(vec![-8]).class("serialize-error").fail("serialize_jwt failed on a single-subject credential") },
+        Some(mask) => {
+          use identity_storage::JwkDocumentExt;
+          let (doc, storage, frag) = signer_doc(ISSUER);
+          match crate::jws_storage::rt().block_on(doc.create_credential_jwt(&cred, &storage, &frag, &sig_options(mask), custom_obj(&cu, false))) {
+            Ok(jwt) => {
+              if !jwt_opts_ok(mask) { return Outcome::new(vec![-9]).class("cred-jwt-not-refused").fail("a credential JWT was produced with a detached or unencoded payload"); }
+              if !header_as_created(jwt.as_str(), mask, ISSUER) { why = Some("the protected header is not the one the signature options describe".into()); }
+              let t = match payload_text(jwt.as_str()) { Some(t) => t, None => return Outcome::new(vec![-8]).class("cred-jwt-shape").fail("the credential JWT has no readable payload segment") };
+              if cred.serialize_jwt(custom_obj(&cu, false)).ok().as_deref() != Some(t.as_str()) { why = Some("the signed payload is not the credential's JWT claims text".into()); }
+              token = Some((jwt, doc, mask)); t
+            }
+            Err(e) => { let o = Outcome::new(vec![3]).class("cred-jwt-refused"); return if jwt_opts_ok(mask) { o.fail(&format!("create_credential_jwt failed for usable options: {}", e)) } else { o }; }
+          }
+        }
+      };
       // registered claims carried once
       if !collide { if let Ok(Value::Object(top)) = serde_json::from_str::<Value>(&text) {
         let vc = top.get("vc").and_then(|x| x.as_object()).cloned().unwrap_or_default();
@@ -168,7 +216,12 @@ pub fn exec(case: &[i64]) -> Outcome {
           && !vc.contains_key("id") && !vc.contains_key("issuer") && !vc.contains_key("issuanceDate") && !vc.contains_key("expirationDate") && vc.get("credentialSubject").and_then(|s| s.get("id")).is_none();
         if !once { why = Some("issuer / subject id / credential id / issuance / expiration are not carried exactly once in iss / sub / jti / nbf / exp".into()); }
       } else { why = Some("serialize_jwt output is not a JSON object".into()); } }
-      let (obs, class) = match decode_cred(text.as_bytes()) {
+      let decoded = match &token {
+        None => decode_cred(text.as_bytes()),
+        Some((jwt, doc, mask)) => JwtCredentialValidator::with_signature_verifier(identity_eddsa_verifier::EdDSAJwsVerifier::default())
+          .verify_signature::<CoreDocument, Object>(jwt, &[doc.clone()], &verifier_options(*mask, ISSUER)).map(|d| (d.credential, d.custom_claims)).map_err(|e| format!("{:?}", e)),
+      };
+      let (obs, class) = match decoded {
         Ok((back, custom)) => {
           let mut o = vec![0]; match back.to_json_value().ok().as_ref().and_then(cred_ints) { Some(bc) => wr_c(&mut o, &bc), None => o.push(-6) }
           o.extend(custom_ints(&custom, false, &cu));
@@ -211,20 +264,46 @@ pub fn exec(case: &[i64]) -> Outcome {
         Err(e) => { let mut out = Outcome::new(cred_err(&e)).class(if inconsistent { "claims-inconsistent-rejected" } else if out_of_range { "claims-date-rejected" } else { "claims-rejected" }); if !inconsistent && !out_of_range { out = out.fail("a consistent claims set with dates in range was rejected"); } out }
       }
     }
-    3 => {
+    3 | 7 => {
+      let signed: Option<i64> = if kind == 7 { Some(take1(&mut v).unwrap()) } else { None };
       let p = rd_p(&mut v); let (oexp, oiss, oaud) = (ro(&mut v), ro(&mut v), ro(&mut v)); let n = take1(&mut v).unwrap(); let cu: Vec<(i64, i64)> = (0..n).map(|_| (take1(&mut v).unwrap(), take1(&mut v).unwrap())).collect();
       let mut m = Map::new(); pres_body(&mut m, &p); m.insert("holder".into(), holder(p.holder)); if let Some(i) = p.id { m.insert("id".into(), url_id(i)); }
       let pres: Presentation<Jwt> = match Presentation::from_json_value(Value::Object(m)) { Ok(x) => x, Err(_) => return Outcome::new(vec![-7]).class("unbuildable").trivial().fail("case presentation does not build") };
       let collide = cu.iter().any(|(n, _)| (1..=5).contains(n) || *n == 8 || *n == 9);
       let opts = JwtPresentationOptions { expiration_date: oexp.map(|t| Timestamp::from_unix(t).unwrap()), issuance_date: oiss.map(|t| Timestamp::from_unix(t).unwrap()), audience: oaud.map(|a| Url::parse(aud(a).as_str().unwrap()).unwrap()), custom_claims: custom_obj(&cu, true) };
-      let text = match pres.serialize_jwt(&opts) { Ok(t) => t, Err(_) => return Outcome::new(vec![-8]).class("serialize-error").fail("serialize_jwt failed") };
       let mut why: Option<String> = None;
+      let mut token: Option<(Jwt, CoreDocument, i64)> = None;
+      let text = match signed {
+        None => match pres.serialize_jwt(&opts) { Ok(t) => t, Err(_) => return Outcome::new(vec![-8]).class("serialize-error").fail("serialize_jwt failed") },
+        Some(mask) => {
+          use identity_storage::JwkDocumentExt;
+          let (doc, storage, frag) = signer_doc(HOLDER);
+          match crate::jws_storage::rt().block_on(doc.create_presentation_jwt(&pres, &storage, &frag, &sig_options(mask), &opts)) {
+            Ok(jwt) => {
+              if !jwt_opts_ok(mask) { return Outcome::new(vec![-9]).class("pres-jwt-not-refused").fail("a presentation JWT was produced with a detached or unencoded payload"); }
+              if !header_as_created(jwt.as_str(), mask, HOLDER) { why = Some("the protected header is not the one the signature options describe".into()); }
+              let t = match payload_text(jwt.as_str()) { Some(t) => t, None => return Outcome::new(vec![-8]).class("pres-jwt-shape").fail("the presentation JWT has no readable payload segment") };
+              if pres.serialize_jwt(&opts).ok().as_deref() != Some(t.as_str()) { why = Some("the signed payload is not the presentation's JWT claims text".into()); }
+              token = Some((jwt, doc, mask)); t
+            }
+            Err(e) => { let o = Outcome::new(vec![3]).class("pres-jwt-refused"); return if jwt_opts_ok(mask) { o.fail(&format!("create_presentation_jwt failed for usable options: {}", e)) } else { o }; }
+          }
+        }
+      };
       if !collide { if let Ok(Value::Object(top)) = serde_json::from_str::<Value>(&text) {
         let vp = top.get("vp").and_then(|x| x.as_object()).cloned().unwrap_or_default();
         let once = top.get("iss") == Some(&holder(p.holder)) && top.get("jti") == p.id.map(url_id).as_ref() && top.get("exp") == oexp.map(|e| json!(e)).as_ref() && top.get("nbf") == oiss.map(|e| json!(e)).as_ref() && top.get("aud") == oaud.map(aud).as_ref() && !vp.contains_key("id") && !vp.contains_key("holder");
         if !once { why = Some("holder / id / expiry / issuance / audience are not carried exactly once in iss / jti / exp / nbf / aud".into()); }
       } }
-      let (obs, class) = match decode_pres(text.as_bytes()) {
+      let decoded = match &token {
+        None => decode_pres(text.as_bytes()),
+        Some((jwt, doc, mask)) => {
+          let vo = JwtPresentationValidationOptions::default().earliest_expiry_date(Timestamp::from_unix(TS_MIN).unwrap()).latest_issuance_date(Timestamp::from_unix(TS_MAX).unwrap()).presentation_verifier_options(verifier_options(*mask, HOLDER));
+          JwtPresentationValidator::with_signature_verifier(identity_eddsa_verifier::EdDSAJwsVerifier::default()).validate::<CoreDocument, Jwt, Object>(jwt, doc, &vo)
+            .map(|d| (d.presentation, d.expiration_date, d.issuance_date, d.aud, d.custom_claims)).map_err(|e| format!("{:?}", e))
+        }
+      };
+      let (obs, class) = match decoded {
         Ok((back, e, i, a, custom)) => {
           let mut o = vec![0]; match back.to_json_value().ok().as_ref().and_then(pres_ints) { Some(bp) => wr_p(&mut o, &bp), None => o.push(-6) }
           wo(&mut o, e.map(|t| t.to_unix())); wo(&mut o, i.map(|t| t.to_unix())); wo(&mut o, a.as_ref().and_then(|u| un_aud(&json!(u.as_str())))); o.extend(custom_ints(&custom, true, &cu));
@@ -312,6 +391,15 @@ pub fn gen(rng: &mut Rng, thorough: bool, sink: &mut Sink) {
   for name in [1i64, 2, 3, 4, 5, 8, 9] { for _ in 0..(if thorough { 40 } else { 8 }) { let p = gen_p(rng); let mut case = vec![3]; wr_p(&mut case, &p);
     wo(&mut case, if rng.chance(1, 2) { Some(*rng.pick(&DATES_IN)) } else { None }); wo(&mut case, if rng.chance(1, 2) { Some(*rng.pick(&DATES_IN)) } else { None }); wo(&mut case, opt(rng, 50, 1, 2));
     let val = match name { 1 | 3 | 4 => *rng.pick(&DATES_IN), 2 => 1, _ => rng.range(1, 3) }; put_cu(&mut case, &[(name, val)]); sink.case(case, "pres-custom-registered-name"); } }
+  // (6)/(7) the same conversions through create_credential_jwt / create_presentation_jwt: every signature-option set once, then random
+  let masks: Vec<i64> = (0..1024).collect();
+  for (i, mask) in masks.iter().enumerate() { if thorough || i % 4 == 0 || mask & (2 | 128 | 512) != 0 && i % 2 == 0 {
+    let c = gen_c(rng); let mut case = vec![6, *mask]; wr_c(&mut case, &c); let cu: Vec<(i64, i64)> = match i % 3 { 0 => vec![], 1 => vec![(20, 7)], _ => vec![(21, 1), (22, 2)] }; put_cu(&mut case, &cu); sink.case(case, "cred-jwt-signed");
+    let p = gen_p(rng); let mut case = vec![7, *mask]; wr_p(&mut case, &p);
+    wo(&mut case, if rng.chance(1, 2) { Some(*rng.pick(&DATES_IN)) } else { None }); wo(&mut case, if rng.chance(1, 2) { Some(*rng.pick(&DATES_IN)) } else { None }); wo(&mut case, opt(rng, 50, 1, 2));
+    let cu: Vec<(i64, i64)> = match i % 4 { 0 => vec![], 1 => vec![(20, 7)], 2 => vec![(21, 1), (22, 2)], _ => vec![(6, 2), (20, 1)] }; put_cu(&mut case, &cu); sink.case(case, "pres-jwt-signed");
+  } }
+  for _ in 0..(if thorough { 1500 } else { 150 }) { let mask = rng.range(0, 1023) & !(if rng.chance(4, 5) { 2 | 128 } else { 0 }); let c = gen_c(rng); let mut case = vec![6, mask]; wr_c(&mut case, &c); put_cu(&mut case, &[]); sink.case(case, "cred-jwt-signed"); }
   // (4) presentation claims sets
   for _ in 0..(if thorough { 10000 } else { 1500 }) {
     let p = gen_p(rng);
